@@ -1188,3 +1188,194 @@ def rule_value_fwd(ctx, classes=SKETCH_CLASSES):
                         capped = Lin.term(("param", "value")) in (a, b)
                 ctx.ob("value-fwd", m, c.node, "%s(value=%s)" % (c.callee.name, show_lin(vv.lin) if isinstance(vv, Num) else vv),
                        "the multiplicity (or its cap at the ceiling) reaches the kernel", exact or capped)
+
+
+# ---------------------------------------------------------------------------
+# wrapper discipline: state-owner, wrapper-once
+# ---------------------------------------------------------------------------
+
+TABLE_ATTRS = {"cms", "n_added_records", "registers", "lhh", "lhh_count", "key_lens", "buckets", "rand_nums"}
+TABLE_WRITERS = {"__init__", "attach_existing_shm"}
+
+
+def rule_state_owner(ctx, classes=SKETCH_CLASSES):
+    """The arrays holding a sketch's state are (re)bound only by the constructor and the attacher; every other method
+    changes them through its kernel.  Rebinding elsewhere aliases or replaces state behind the kernels' back."""
+    F = facts_of(ctx)
+    seen = set()
+    for cls in F.classes(classes):
+        for mname, meth in cls.methods.items():
+            if meth.key in seen:
+                continue
+            seen.add(meth.key)
+            sites = []
+            for n in walk_no_nested(meth.node):
+                tgts = []
+                if isinstance(n, ast.Assign):
+                    tgts = n.targets
+                elif isinstance(n, (ast.AugAssign, ast.AnnAssign)):
+                    tgts = [n.target]
+                for t in tgts:
+                    for e in (t.elts if isinstance(t, (ast.Tuple, ast.List)) else [t]):
+                        for obj in ("self", "other"):
+                            a = self_attr(e, obj)
+                            if a in TABLE_ATTRS:
+                                sites.append((n, obj, a))
+                if isinstance(n, ast.Call) and dotted(n.func) == "setattr" and n.args and isinstance(n.args[0], ast.Name) and n.args[0].id in ("self", "other"):
+                    sites.append((n, n.args[0].id, unparse(n.args[1]) if len(n.args) > 1 else "?"))
+            if mname in TABLE_WRITERS:
+                bad = [s for s in sites if s[1] != "self"]
+            else:
+                bad = sites
+            ctx.ob("state-owner", meth, bad[0][0] if bad else meth.node, "%s rebinds %s" % (meth.qualname, sorted({"%s.%s" % (o, a) for _, o, a in sites}) or "nothing"),
+                   "state arrays are bound only in __init__/attach_existing_shm; other methods go through their kernel", not bad,
+                   "" if not bad else "`%s` rebinds %s.%s: the sketch's state is replaced or aliased outside the kernels" % (unparse(bad[0][0], 70), bad[0][1], bad[0][2]))
+    # module-level functions must not rebind them either (load copies into the arrays)
+    for f in F.model.all_funcs():
+        if f.cls is not None or f.is_kernel:
+            continue
+        bad = []
+        for n in walk_no_nested(f.node):
+            if isinstance(n, ast.Assign):
+                for t in n.targets:
+                    if isinstance(t, ast.Attribute) and t.attr in TABLE_ATTRS - {"buckets", "rand_nums"}:
+                        bad.append(n)
+        if bad:
+            ctx.ob("state-owner", f, bad[0], "%s rebinds %s" % (f.name, unparse(bad[0].targets[0])), "state arrays are bound only by the constructor/attacher", False)
+    # loaders (static methods) copy, never rebind
+    for cls in F.classes(classes):
+        ld = cls.methods.get("load")
+        if ld is None:
+            continue
+        bad = [n for n in walk_no_nested(ld.node) if isinstance(n, ast.Assign) and any(isinstance(t, ast.Attribute) and t.attr in TABLE_ATTRS for t in n.targets)]
+        ctx.ob("state-owner", ld, bad[0] if bad else ld.node, "%s copies into the arrays" % ld.qualname,
+               "load() fills the constructed arrays with np.copyto (keeps shared-memory placement and dtype)", not bad,
+               "" if not bad else "`%s` rebinds the array instead of copying into it" % unparse(bad[0], 60))
+
+
+WRAPPED = ("add", "add_ngram", "merge", "query", "__getitem__")
+
+
+def rule_wrapper_once(ctx, classes=SKETCH_CLASSES, methods=WRAPPED):
+    """Every non-raising path through a wrapper executes each of its kernel call sites exactly once, in every case
+    (no fast path that answers or updates without the kernel), and a query returns the kernel's value."""
+    F = facts_of(ctx)
+    for cls in F.classes(classes):
+        for mname in methods:
+            meth = cls.methods.get(mname)
+            if meth is None:
+                continue
+            ksites = [k for k in F.calls_from(meth) if k.callee.is_kernel]
+            if not ksites:
+                continue           # pure delegation (e.g. __getitem__ -> self.query): rule deleg
+            w = F.walk(meth)
+            rets = [e for e in w.events if e.kind == "ret"]
+            res = []
+            for r in rets:
+                pre = on_path(w.events, r)
+                bad = None
+                for k in ksites:
+                    n = len([c for c in pre if c.kind == "call" and c.node is k.node])
+                    if n != 1:
+                        bad = "%s is called %d times on a path that returns normally" % (k.callee.name, n)
+                res.append((bad is None, "each kernel call site executed once" if bad is None else bad, fact_strs(r)))
+            agg(ctx, "wrapper-once", meth, ksites[0].node, "%s -> %s" % (meth.qualname, "+".join(k.callee.name for k in ksites)),
+                "every normal path through the wrapper performs its kernel call(s) exactly once", res)
+            # no state is touched directly: subscript stores on self/other arrays
+            direct = [n for n in walk_no_nested(meth.node) if isinstance(n, (ast.Assign, ast.AugAssign))
+                      for t in (n.targets if isinstance(n, ast.Assign) else [n.target])
+                      if isinstance(t, ast.Subscript) and (self_attr(t.value) in TABLE_ATTRS or self_attr(t.value, "other") in TABLE_ATTRS)]
+            ctx.ob("wrapper-once", meth, direct[0] if direct else meth.node, "%s writes no array element itself" % meth.qualname,
+                   "the wrapper changes the tables only through its kernel", not direct)
+            if mname in ("query", "__getitem__"):
+                res = []
+                for r in [x for x in rets if not x.implicit]:
+                    pre = [c for c in on_path(w.events, r) if c.kind == "call" and c.callee is not None and c.callee.is_kernel]
+                    okk = bool(pre) and isinstance(r.value, Num) and isinstance(pre[-1].result, Num) and r.value.lin == pre[-1].result.lin
+                    res.append((okk, "returns the kernel's value" if okk else "the value returned is not the kernel's result (cached or recomputed elsewhere)", fact_strs(r)))
+                if any(x.implicit for x in rets):
+                    res.append((False, "a path returns None"))
+                agg(ctx, "wrapper-once", meth, ksites[-1].node, "%s returns %s(...)" % (meth.qualname, ksites[-1].callee.name),
+                    "a query answers with the kernel's value on every path", res)
+
+
+# ---------------------------------------------------------------------------
+# reload-valid: the constructor accepts every parameter value its own save() can store
+# ---------------------------------------------------------------------------
+
+def _subst_cond(c, term, repl):
+    k = c[0]
+    if k in ("le", "flt", "eq", "ne"):
+        return (k, c[1].subst(term, repl)) + tuple(c[2:])
+    if k in ("and", "or"):
+        return (k, [_subst_cond(x, term, repl) for x in c[1]])
+    if k == "not":
+        return ("not", _subst_cond(c[1], term, repl))
+    return c
+
+
+def _drop_atoms(c, value):
+    """Replace opaque atoms (isinstance checks ...) by a constant truth value."""
+    k = c[0]
+    if k == "atom":
+        return ("true",) if value else ("false",)
+    if k == "not" and c[1][0] == "atom":
+        return ("true",) if value else ("false",)
+    if k in ("and", "or"):
+        return (k, [_drop_atoms(x, value) for x in c[1]])
+    return c
+
+
+def rule_reload_valid(ctx, classes=SKETCH_CLASSES):
+    F = facts_of(ctx)
+    for cls in F.classes(classes):
+        ctor = F.ctor(cls)
+        if ctor.cls is not cls:
+            continue
+        w = F.walk(ctor)
+        cparams = [p for p in ctor.params if p not in ("self", "shared_memory")]
+        # validation: branch conditions under which the constructor raises
+        raise_conds = []
+        for r in [e for e in w.events if e.kind == "raise"]:
+            if r.path:
+                raise_conds.append((r.path[-1][2], r))
+        stores = [e for e in w.events if e.kind == "attrstore" and e.target.startswith("self.") and e.target[5:] in cparams]
+        for g in group_by_node(stores):
+            e0 = g[0]
+            P = e0.target[5:]
+            pterm = ("param", P)
+            res = []
+            for e in g:
+                V = e.value
+                if not isinstance(V, Num):
+                    res.append((None, "stored value not understood"))
+                    continue
+                if V.lin == Lin.term(pterm):
+                    res.append((True, "the attribute is the (validated) parameter itself", fact_strs(e)))
+                    continue
+                bad = None
+                for c, r in raise_conds:
+                    if pterm not in set(_cond_terms(c)):
+                        continue
+                    c2 = _drop_atoms(_subst_cond(c, pterm, V.lin), True)
+                    st = w.refine(e, [c2])
+                    if not st.dead:
+                        bad = "a value of `%s` that save() stores (%s) is rejected by the constructor's own check `%s` when load() feeds it back" % (
+                            P, show_lin(V.lin), unparse(r.path[-1][0].test, 70))
+                        break
+                res.append((bad is None, "every stored value passes the constructor's validation" if bad is None else bad, fact_strs(e)))
+            agg(ctx, "reload-valid", ctor, e0.node, "%s: %s" % (cls.name, src(ctor, e0.node, 70)),
+                "load(save(x)) can reconstruct x: the saved parameter value satisfies the constructor's validation", res)
+
+
+def _cond_terms(c):
+    if c[0] in ("le", "flt", "eq", "ne"):
+        return list(c[1].terms())
+    if c[0] in ("and", "or"):
+        out = []
+        for x in c[1]:
+            out.extend(_cond_terms(x))
+        return out
+    if c[0] == "not":
+        return _cond_terms(c[1])
+    return []
